@@ -19,6 +19,7 @@ import (
 	"strconv"
 	"strings"
 
+	jsight "github.com/jsightapi/jsight-schema-go-library"
 	libjson "github.com/jsightapi/jsight-schema-go-library/formats/json"
 
 	"verif/internal/mon"
@@ -35,49 +36,108 @@ type c06Event struct {
 
 func (e c06Event) String() string { return fmt.Sprintf("%s[%d:%d]", e.Type, e.Begin, e.End) }
 
-// c06DocEvents drains NextLexeme of a fresh Document. term is "eof" or a description of how
-// the stream ended instead.
-func c06DocEvents(text []byte) (evs []c06Event, term string) {
-	doc := libjson.New("doc", text)
-	limit := 8*len(text) + 64
-	for n := 0; ; n++ {
-		if n > limit {
-			return evs, fmt.Sprintf("no io.EOF after %d events on %d bytes", n, len(text))
+// c06Reader advances one Document by one NextLexeme call at a time. term is "" while the stream
+// is open, "eof" or a description of how the stream ended instead.
+type c06Reader struct {
+	doc   jsight.Document
+	evs   []c06Event
+	term  string
+	n     int
+	limit int
+	size  int
+}
+
+func c06NewReader(text []byte) *c06Reader {
+	return &c06Reader{doc: libjson.New("doc", text), limit: 8*len(text) + 64, size: len(text)}
+}
+
+// step performs one NextLexeme call; it returns false once the stream has ended.
+func (rd *c06Reader) step() bool {
+	if rd.term != "" {
+		return false
+	}
+	if rd.n > rd.limit {
+		rd.term = fmt.Sprintf("no io.EOF after %d events on %d bytes", rd.n, rd.size)
+		return false
+	}
+	rd.n++
+	var ev c06Event
+	var err error
+	pan := ""
+	func() {
+		defer func() {
+			if r := recover(); r != nil {
+				pan = fmt.Sprintf("panic: %v", r)
+			}
+		}()
+		lex, e := rd.doc.NextLexeme()
+		err = e
+		if e != nil {
+			return
 		}
-		var ev c06Event
-		var err error
-		pan := ""
+		ev = c06Event{Type: lex.Type().String(), Begin: int(lex.Begin()), End: int(lex.End())}
 		func() {
 			defer func() {
 				if r := recover(); r != nil {
-					pan = fmt.Sprintf("panic: %v", r)
+					ev.ValueErr = fmt.Sprintf("Value() panicked: %v", r)
 				}
 			}()
-			lex, e := doc.NextLexeme()
-			err = e
-			if e != nil {
-				return
-			}
-			ev = c06Event{Type: lex.Type().String(), Begin: int(lex.Begin()), End: int(lex.End())}
-			func() {
-				defer func() {
-					if r := recover(); r != nil {
-						ev.ValueErr = fmt.Sprintf("Value() panicked: %v", r)
-					}
-				}()
-				ev.Value = string(lex.Value())
-			}()
+			ev.Value = string(lex.Value())
 		}()
-		switch {
-		case pan != "":
-			return evs, pan
-		case errors.Is(err, io.EOF):
-			return evs, "eof"
-		case err != nil:
-			return evs, "error: " + err.Error()
-		}
-		evs = append(evs, ev)
+	}()
+	switch {
+	case pan != "":
+		rd.term = pan
+	case errors.Is(err, io.EOF):
+		rd.term = "eof"
+	case err != nil:
+		rd.term = "error: " + err.Error()
+	default:
+		rd.evs = append(rd.evs, ev)
+		return true
 	}
+	return false
+}
+
+// c06DocEvents drains NextLexeme of a fresh Document. term is "eof" or a description of how
+// the stream ended instead.
+func c06DocEvents(text []byte) (evs []c06Event, term string) {
+	rd := c06NewReader(text)
+	for rd.step() {
+	}
+	return rd.evs, rd.term
+}
+
+// c06Lockstep reads several documents by turns (schedule[i] names the document advanced by the
+// i-th call; when the schedule is used up the documents are drained in order) and compares each
+// stream with the stream of the same text read alone.
+func c06Lockstep(texts [][]byte, schedule []byte) string {
+	rds := make([]*c06Reader, len(texts))
+	for i, t := range texts {
+		rds[i] = c06NewReader(t)
+	}
+	for _, w := range schedule {
+		rds[int(w)%len(rds)].step()
+	}
+	for _, rd := range rds {
+		for rd.step() {
+		}
+	}
+	for i, rd := range rds {
+		solo, term := c06DocEvents(texts[i])
+		if term != rd.term {
+			return fmt.Sprintf("document %d read by turns ends with %q, read alone with %q", i, rd.term, term)
+		}
+		if len(solo) != len(rd.evs) {
+			return fmt.Sprintf("document %d read by turns delivers %d events, read alone %d", i, len(rd.evs), len(solo))
+		}
+		for j := range solo {
+			if solo[j] != rd.evs[j] {
+				return fmt.Sprintf("document %d event %d read by turns is %s, read alone %s", i, j, rd.evs[j], solo[j])
+			}
+		}
+	}
+	return ""
 }
 
 // c06Exp is one expected event derived from the reference tree (half-open spans).
@@ -539,7 +599,12 @@ type c06Case struct {
 	// Embedded the resulting text (for the reader)
 	Inserts  []c06Insert `json:"inserts,omitempty"`
 	Embedded string      `json:"embedded,omitempty"`
+	// lockstep cases: the other documents (hex) and the schedule of NextLexeme calls
+	Others   []string `json:"others,omitempty"`
+	Schedule []byte   `json:"schedule,omitempty"`
 }
+
+const c06LockstepOK = "every document read by turns delivers the events it delivers read alone"
 
 const c06EventsOK = "event stream describes the text"
 const c06CrossOK = "same event sequence as the document scanner (new-line events aside)"
@@ -577,6 +642,7 @@ func c06Run(c *mon.Ctx, unit int) {
 		c.Inconclusive(c06NoHook)
 	}
 	fails := 0
+	var recent [][]byte
 	for k := 0; k < per; k++ {
 		o := jsonGenOpts{MaxDepth: 8, MaxWidth: 8, WS: 2}
 		switch r.Intn(8) {
@@ -678,6 +744,46 @@ func c06Run(c *mon.Ctx, unit int) {
 			}
 			continue // the cross-scanner comparison needs a sound document stream
 		}
+		// several documents read by turns: scanners must not share state
+		if len(text) <= 600 {
+			recent = append(recent, text)
+			if len(recent) > 3 {
+				recent = recent[1:]
+			}
+		}
+		if len(recent) >= 2 && k%4 == 3 {
+			group := recent[len(recent)-2:]
+			if len(recent) == 3 && r.Bool() {
+				group = recent
+			}
+			total := 0
+			for _, t := range group {
+				total += len(t)
+			}
+			sched := make([]byte, 2*total+8)
+			burst := r.Range(1, 3)
+			for i := range sched {
+				if burst == 1 {
+					sched[i] = byte(i % len(group))
+				} else {
+					sched[i] = byte(r.Intn(len(group)))
+				}
+			}
+			c.Eval(1)
+			counts["lockstep groups (documents read by turns vs alone)"]++
+			counts["lockstep NextLexeme calls scheduled"] += len(sched)
+			if d := c06Lockstep(group, sched); d != "" {
+				counts["lockstep violations"]++
+				fails++
+				if fails <= 5 {
+					cs := c06Case{Hex: hex.EncodeToString(group[0]), Text: strconv.Quote(string(group[0])), Schedule: sched}
+					for _, t := range group[1:] {
+						cs.Others = append(cs.Others, hex.EncodeToString(t))
+					}
+					c.Violate("lockstep", cs, c06LockstepOK, d, "a Document's event stream depends on another Document being read in between")
+				}
+			}
+		}
 		if mode == 0 || c06SchemaEvents == nil {
 			continue
 		}
@@ -768,6 +874,25 @@ func c06ReplayEvents(raw json.RawMessage) string {
 	return c06EventsOK
 }
 
+func c06ReplayLockstep(raw json.RawMessage) string {
+	var cs c06Case
+	if err := json.Unmarshal(raw, &cs); err != nil {
+		return "bad replay: " + err.Error()
+	}
+	var group [][]byte
+	for _, h := range append([]string{cs.Hex}, cs.Others...) {
+		t, err := hex.DecodeString(h)
+		if err != nil {
+			return "bad replay: " + err.Error()
+		}
+		group = append(group, t)
+	}
+	if d := c06Lockstep(group, cs.Schedule); d != "" {
+		return d
+	}
+	return c06LockstepOK
+}
+
 func c06ReplayCross(raw json.RawMessage) string {
 	var cs c06Case
 	if err := json.Unmarshal(raw, &cs); err != nil {
@@ -810,6 +935,7 @@ func init() {
 			"stack discipline, exact literal/key/object/array spans and begin offsets, containment of value/item wrappers in their slot, and equality of the value rebuilt from events alone with json.Compact(text). " +
 			"Cross-scanner (hook): for texts without exponent numerals the schema scanner (normal and length mode) and, for arrays of distinct scalars, the enum scanner (both modes) must deliver the same (type, begin, end) list, " +
 			"new-line events removed; also with the JSON embedded among # comments (schema) / inline annotations (enum), positions mapped. " +
+			"Lockstep: every fourth text, the last two or three texts are read by turns (alternating or random schedule of NextLexeme calls on separate Document objects) and each stream must equal the stream of the same text read alone. " +
 			"Non-trivial = text with at least 3 values; distinct = hash of the text.",
 		Assumptions: []string{
 			"value-begin/value-end and item-begin/item-end spans are only required to enclose their value and to lie inside their slot (between the neighbouring key/values and the parent's brackets); the statement fixes exactly only literal, key and container spans",
@@ -819,7 +945,7 @@ func init() {
 		Units: func(tier string, seed uint64) int { u, _ := c06Sizes(tier); return u },
 		Run:   c06Run,
 		Replay: map[string]func(json.RawMessage) string{
-			"events": c06ReplayEvents, "cross": c06ReplayCross, "cross-embedded": c06ReplayCross,
+			"events": c06ReplayEvents, "cross": c06ReplayCross, "cross-embedded": c06ReplayCross, "lockstep": c06ReplayLockstep,
 		},
 		Final: func(ev *mon.Evidence) error {
 			if n := ev.Counters[c06BugCounter]; n > 0 {
